@@ -1,5 +1,5 @@
 """Group dumped signatures:  python -m mc.sigtool file.json key1,key2,... [filter k=v ...]"""
-import json, sys
+import json, sys, os
 from collections import Counter, defaultdict
 d = json.load(open(sys.argv[1]))
 keys = sys.argv[2].split(",") if len(sys.argv) > 2 and sys.argv[2] else None
@@ -26,10 +26,15 @@ else:
         print(ns, nc, dict(zip(keys, k)))
         if SHOW:
             c = ex["case"]
-            print("    case:", json.dumps(c.get("ir", c), default=repr)[:500], "cfg:", c.get("cfg"))
+            ir = c.get("ir", c)
+            short = {"params": ir.get("params"), "returns": ir.get("returns")} if isinstance(ir, dict) and "params" in ir else ir
+            cfg = c.get("cfg")
+            if isinstance(cfg, dict):
+                cfg = {k: v for k, v in cfg.items()}
+            print("    case:", json.dumps(short, default=repr)[:400], "cfg:", cfg)
             print("    expected:", str(ex.get("expected"))[:200], "| observed:", str(ex.get("observed"))[:200])
             if ex.get("detail"):
-                print("    text: " + repr(ex["detail"])[:400])
+                print("    text: " + repr(ex["detail"])[:int(os.environ.get("TXT", "300"))])
 print(len(d), "signatures")
 if "--ex" in sys.argv or True:
     pass
